@@ -14,6 +14,7 @@ Helper lemmas for L6 `DtRes` (used by `RTV/Props/C06.lean`, `RTV/Props/C07.lean`
 * word shift of `merge_date_and_time`: `mergeHour`, `merge_clock_words`, `matchToTime_designator`,
   `resolveDateAtTime_designator`
 * `parse_time_of_today`: `parseTimeOfToday_parsed`, `enGetHour_pmWord`, `enGetHour_morning`
+* time ranges: `toPm_hh_w`, `toPm_fmtSecs`, `span_sound`, `spanHM_eq`
 * `<date> at <time>`: `merge_clock`, `allStrToPm_one` (`all_str_to_pm` on `<prefix>Thh<suffix>`),
   `dtRes_datetime_plain/ampm`, `resolveDateAtTime_clock`
 -/
@@ -175,7 +176,7 @@ theorem d2_isNum (u : Uni) (ha : u.Ascii) (n : Nat) (h : n < 100) : IsNum u (fmt
   rwa [e] at this
 
 /-- `to_pm('hh')`, `to_pm('hh:…')`, with or without the leading `T`. -/
-theorem toPm_hh (u : Uni) (ha : u.Ascii) (h : Nat) (hh : h < 100) (t : Bool) (rest : Str)
+theorem toPm_hh (u : Uni) (ha : u.Ascii) (h : Nat) (hh : h < 100) (hw : u.pmWraps = false ∨ h ≤ 12) (t : Bool) (rest : Str)
     (hr : rest = [] ∨ ∃ r, rest = 58 :: r) :
     toPm u ((if t then [84] else []) ++ fmtD 2 (h : Int) ++ rest) =
       some ((if t then [84] else []) ++ fmtD 2 (pmHour h : Int) ++ rest) := by
@@ -184,15 +185,22 @@ theorem toPm_hh (u : Uni) (ha : u.Ascii) (h : Nat) (hh : h < 100) (t : Bool) (re
   have e2 := fmtD2 h hh
   have nT : startsWith (fmtD 2 (h : Int) ++ rest) [84] = false := by
     rw [e2]; simp [startsWith]; omega
+  have hp : (if h = 12 then 0 else if u.pmWraps = true then (h + 12) % 24 else h + 12) = pmHour h := by
+    unfold pmHour
+    rcases hw with hw | hw
+    · simp [hw]
+    · split
+      · rfl
+      · split <;> omega
   rcases hr with rfl | ⟨r, rfl⟩
   · cases t
     · simp only [Bool.false_eq_true, if_false, List.nil_append, List.append_nil] at nT ⊢
-      simp [toPm, nT, splitOn_nosep 58 _ n58, hint, joinWith, pmHour]
-    · simp [toPm, startsWith, splitOn_nosep 58 _ n58, hint, joinWith, pmHour]
+      simp [toPm, nT, splitOn_nosep 58 _ n58, hint, joinWith, hp]
+    · simp [toPm, startsWith, splitOn_nosep 58 _ n58, hint, joinWith, hp]
   · cases t
     · simp only [Bool.false_eq_true, if_false, List.nil_append] at nT ⊢
-      simp [toPm, nT, splitOn_append 58 _ r n58, hint, joinWith_cons_splitOn, pmHour, sColon]
-    · simp [toPm, startsWith, splitOn_append 58 _ r n58, hint, joinWith_cons_splitOn, pmHour, sColon]
+      simp [toPm, nT, splitOn_append 58 _ r n58, hint, joinWith_cons_splitOn, hp, sColon]
+    · simp [toPm, startsWith, splitOn_append 58 _ r n58, hint, joinWith_cons_splitOn, hp, sColon]
 
 /-! ### a written clock time and what `match_to_time` makes of it -/
 
@@ -340,13 +348,13 @@ theorem dtRes_time_plain (u : Uni) (timex : Str) (y mo d hh m s : Nat) (h : hh <
   simp [dateTimeResolution, toSlot, fmtFor, formatTime_eq, gen_time hh m s h, sTime, Ne.symm sAmPm_ne_nil]
 
 /-- a time slot commented `ampm` resolves to the AM reading and the reading `to_pm` derives from it -/
-theorem dtRes_time_ampm (u : Uni) (ha : u.Ascii) (tail : Str) (y mo d hh m s : Nat) (h : hh < 100)
+theorem dtRes_time_ampm (u : Uni) (ha : u.Ascii) (tail : Str) (y mo d hh m s : Nat) (h : hh < 100) (h12 : hh ≤ 12)
     (ht : tail = [] ∨ ∃ r, tail = 58 :: r) :
     dateTimeResolution u (toSlot .time (Res.mk true (84 :: fmtD 2 (hh : Int) ++ tail) sAmPm ⟨y, mo, d, hh, m, s⟩ ⟨y, mo, d, hh, m, s⟩)) =
       .ok (some [{ timex := 84 :: fmtD 2 (hh : Int) ++ tail, type := sTime, value := some (hms hh m s) },
                  { timex := 84 :: fmtD 2 (pmHour hh : Int) ++ tail, type := sTime, value := some (hms (pmHour hh) m s) }]) := by
-  have p1 := toPm_hh u ha hh h true tail ht
-  have p2 := toPm_hh u ha hh h false (sColon ++ fmtD 2 (m : Int) ++ sColon ++ fmtD 2 (s : Int)) (Or.inr ⟨_, rfl⟩)
+  have p1 := toPm_hh u ha hh h (Or.inr h12) true tail ht
+  have p2 := toPm_hh u ha hh h (Or.inr h12) false (sColon ++ fmtD 2 (m : Int) ++ sColon ++ fmtD 2 (s : Int)) (Or.inr ⟨_, rfl⟩)
   simp only [if_true, Bool.false_eq_true, if_false, List.nil_append, List.singleton_append, List.cons_append] at p1 p2
   have e : hms hh m s = fmtD 2 (hh : Int) ++ (sColon ++ fmtD 2 (m : Int) ++ sColon ++ fmtD 2 (s : Int)) := by simp [hms]
   have e' : hms (pmHour hh) m s = fmtD 2 (pmHour hh : Int) ++ (sColon ++ fmtD 2 (m : Int) ++ sColon ++ fmtD 2 (s : Int)) := by
@@ -376,8 +384,8 @@ theorem resolveTime_clock (u : Uni) (ha : u.Ascii) (cfg : TimeCfg) (c : Clock) (
   simp only [resolveTime, matchToTime_clock u cfg c amD pmD ref wf hz hv, bind, Except.bind]
   split
   · rename_i hc
-    obtain ⟨_, _, rfl, rfl⟩ := hc
-    have := dtRes_time_ampm u ha c.tail ref.y ref.m ref.d (adjHour c.h false false) c.m c.s (by omega) (tail_shape c)
+    obtain ⟨_, hle, rfl, rfl⟩ := hc
+    have := dtRes_time_ampm u ha c.tail ref.y ref.m ref.d (adjHour c.h false false) c.m c.s (by omega) hle (tail_shape c)
     simpa [Clock.timex, Clock.value] using this
   · rename_i hc
     have := dtRes_time_plain u (c.timex (adjHour c.h amD pmD)) ref.y ref.m ref.d (adjHour c.h amD pmD) c.m c.s (by omega)
@@ -737,7 +745,7 @@ theorem hms_explicit (hh m s : Nat) (h : hh < 100) (hm : m < 100) (hs : s < 100)
 
 /-- a datetime slot commented `ampm` resolves to the AM reading and the one `to_pm` / `all_str_to_pm` derive -/
 theorem dtRes_datetime_ampm (u : Uni) (ha : u.Ascii) (c : Clock) (w60 : c.m < 60 ∧ c.s < 60) (y mo d hh : Nat)
-    (h1 : 1000 ≤ y) (h2 : y < 10000) (hmo : mo < 100) (hd : d < 100) (h : hh < 100) :
+    (h1 : 1000 ≤ y) (h2 : y < 10000) (hmo : mo < 100) (hd : d < 100) (h : hh < 100) (h12 : hh ≤ 12) :
     dateTimeResolution u (toSlot .datetime (Res.mk true (ymd y mo d ++ c.timex hh) sAmPm
         ⟨y, mo, d, hh, c.m, c.s⟩ ⟨y, mo, d, hh, c.m, c.s⟩)) =
       .ok (some [{ timex := ymd y mo d ++ c.timex hh, type := sDateTime, value := some (ymd y mo d ++ 32 :: hms hh c.m c.s) },
@@ -750,8 +758,8 @@ theorem dtRes_datetime_ampm (u : Uni) (ha : u.Ascii) (c : Clock) (w60 : c.m < 60
   have y84 : 84 ∉ ymd y mo d := by rw [ye]; simp; omega
   have t84 : 84 ∉ c.tail := by intro hx; have := tail_le c w60 84 hx; omega
   have yl : lastOpt none (ymd y mo d) ≠ some 80 := by rw [ye]; simp [lastOpt]; omega
-  have p1 := toPm_hh u ha hh h true [] (Or.inl rfl)
-  have p2 := toPm_hh u ha hh h false (sColon ++ fmtD 2 (c.m : Int) ++ sColon ++ fmtD 2 (c.s : Int)) (Or.inr ⟨_, rfl⟩)
+  have p1 := toPm_hh u ha hh h (Or.inr h12) true [] (Or.inl rfl)
+  have p2 := toPm_hh u ha hh h (Or.inr h12) false (sColon ++ fmtD 2 (c.m : Int) ++ sColon ++ fmtD 2 (c.s : Int)) (Or.inr ⟨_, rfl⟩)
   simp only [if_true, Bool.false_eq_true, if_false, List.nil_append, List.singleton_append, List.cons_append,
     List.append_nil] at p1 p2
   have e : hms hh c.m c.s = fmtD 2 (hh : Int) ++ (sColon ++ fmtD 2 (c.m : Int) ++ sColon ++ fmtD 2 (c.s : Int)) := by
@@ -803,7 +811,7 @@ theorem resolveDateAtTime_clock (u : Uni) (ha : u.Ascii) (dcfg : DateCfg) (hmax 
     obtain ⟨_, h12, rfl, rfl⟩ := hc
     have cnd : (adjHour c.h false false ≤ 12 ∧ sAmPm ≠ []) := ⟨h12, sAmPm_ne_nil⟩
     simp only [cnd, and_self, if_true]
-    exact dtRes_datetime_ampm u ha c w60 y mo d _ (by omega) (by omega) (by omega) (by omega) (by omega)
+    exact dtRes_datetime_ampm u ha c w60 y mo d _ (by omega) (by omega) (by omega) (by omega) (by omega) h12
   · simp only [ne_eq, not_true_eq_false, and_false, if_false]
     exact dtRes_datetime_plain u _ y mo d _ c.m c.s (by omega) (by omega)
 
@@ -1000,7 +1008,7 @@ theorem resolveTimeZh_digit (u : Uni) (ha : u.Ascii) (cfg : ZhCfg) (hfix : cfg.a
   · rename_i hc
     have hc' : 1 ≤ c.h ∧ c.h ≤ 12 := by omega
     simp only [hc', and_self, if_true]
-    have := dtRes_time_ampm u ha c.tail ref.y ref.m ref.d c.h c.m c.s (by omega) (tail_shape c)
+    have := dtRes_time_ampm u ha c.tail ref.y ref.m ref.d c.h c.m c.s (by omega) hc'.2 (tail_shape c)
     simpa [Clock.timex, Clock.value] using this
   · rename_i hc
     have hc' : ¬ (1 ≤ c.h ∧ c.h ≤ 12) := by omega
@@ -1189,6 +1197,49 @@ theorem enGetHour_morning (u : Uni) (ms : Str) (hm : endsWith (strip u.isSpace m
     (h : Nat) (h12 : h < 12) : enGetHour u ms (h : Int) = (h : Int) := by
   have : ¬ ((h : Int) ≥ 12) := by omega
   simp [enGetHour, hm, this]
+
+
+
+/-! ### time ranges -/
+
+/-- `to_pm('hh:…')` in the variant that wraps modulo 24 -/
+theorem toPm_hh_w (u : Uni) (ha : u.Ascii) (hw : u.pmWraps = true) (h : Nat) (hh : h < 24) (rest : Str) :
+    toPm u (fmtD 2 (h : Int) ++ 58 :: rest) = some (fmtD 2 (((h + 12) % 24 : Nat) : Int) ++ 58 :: rest) := by
+  have n58 := d2_no58 h (by omega)
+  have hint := (d2_isNum u ha h (by omega)).int
+  have e2 := fmtD2 h (by omega)
+  have nT : startsWith (fmtD 2 (h : Int) ++ 58 :: rest) [84] = false := by
+    rw [e2]; simp [startsWith]; omega
+  have hp : (if h = 12 then 0 else if u.pmWraps = true then (h + 12) % 24 else h + 12) = (h + 12) % 24 := by
+    simp only [hw, if_true]; split <;> omega
+  simp [toPm, nT, splitOn_append 58 _ rest n58, hint, joinWith_cons_splitOn, hp, sColon]
+
+/-- `format_time` of seconds-from-midnight, spelled out -/
+theorem fmtSecs_eq (s : Nat) :
+    fmtSecs s = fmtD 2 ((s / 3600 % 24 : Nat) : Int) ++ 58 :: (fmtD 2 ((s / 60 % 60 : Nat) : Int) ++ 58 :: fmtD 2 ((s % 60 : Nat) : Int)) := by
+  simp [fmtSecs, formatTime, sColon]
+
+/-- In the wrapping variant the PM reading of a start / end is the same clock time twelve hours later (modulo a day). -/
+theorem toPm_fmtSecs (u : Uni) (ha : u.Ascii) (hw : u.pmWraps = true) (s : Nat) :
+    toPm u (fmtSecs s) = some (fmtSecs (s + 43200)) := by
+  rw [fmtSecs_eq, fmtSecs_eq, toPm_hh_w u ha hw _ (by omega)]
+  have a : (s / 3600 % 24 + 12) % 24 = (s + 43200) / 3600 % 24 := by omega
+  have b : s / 60 % 60 = (s + 43200) / 60 % 60 := by omega
+  have c : s % 60 = (s + 43200) % 60 := by omega
+  rw [a, b, c]
+
+/-- the numbers `merge_two_time_points` prints in `PT…H…M` add up to the span -/
+def spanHours (diff : Nat) : Nat := diff / 3600
+def spanMinutes (diff : Nat) : Nat := diff / 60 % 60
+
+theorem span_sound (diff : Nat) (h : diff % 60 = 0) : spanHours diff * 3600 + spanMinutes diff * 60 = diff := by
+  unfold spanHours spanMinutes; omega
+
+theorem spanHM_eq (diff : Nat) (h : diff % 60 = 0) :
+    spanHM diff = some ([80, 84] ++ (if spanHours diff > 0 then decStr (spanHours diff) ++ [72] else []) ++
+      (if 0 < spanMinutes diff then decStr (spanMinutes diff) ++ [77] else [])) := by
+  simp [spanHM, h, spanHours, spanMinutes]
+  split <;> simp_all
 
 
 end RTV.DtRes
